@@ -1278,12 +1278,14 @@ class ValueObject(Value):
 
     def __repr__(self):
         fn = self.resolveItem("_str_")
-        if fn:
+        if fn and fn.isFunc():
             args_ = Args(None)
             args_.addArgs(fn.getArgNames())
             args_.setArgs([None], [self])
             try:
-                return fn.execute(args_).value
+                return fn.execute(
+                    args_, getattr(fn, "lexicalEnv", None), None
+                ).asString().value
             except CklRuntimeError as e:
                 e.stacktrace.append("_str_")
                 raise
